@@ -1,6 +1,10 @@
 package rules
 
 import (
+	"go/types"
+
+	"golang.org/x/tools/go/ssa"
+
 	"bytes"
 	"crypto/sha256"
 	"fmt"
@@ -19,7 +23,8 @@ import (
 )
 
 func init() {
-	engine.Register("TV-RULES", ruleTVRules)
+	engine.Register("TV-RULES", func(c *engine.Context) *report.Rule { return ruleTVRules(c, false) })
+	engine.Register("TV-IDENT", func(c *engine.Context) *report.Rule { return ruleTVRules(c, true) })
 	engine.Register("TV-ACTIONS", ruleTVActions)
 	engine.Register("TV-WF", ruleTVWF)
 	engine.Register("TV-CATCHALL", ruleTVCatchAll)
@@ -30,11 +35,15 @@ func init() {
 
 // pegModel is the parsed grammar plus the decompiled generated parser.
 type pegModel struct {
-	src    *peg.Grammar
-	gen    *peg.Generated
-	facts  *peg.Facts
-	err    string
-	pegPos string
+	src         *peg.Grammar // the published grammar
+	gen         *peg.Generated
+	run         *peg.Grammar // the grammar the generated parser actually runs (decompiled); falls back to src
+	runOK       bool
+	runProblems []string
+	runFacts    *peg.Facts
+	facts       *peg.Facts
+	err         string
+	pegPos      string
 }
 
 func pegOf(c *engine.Context) *pegModel {
@@ -61,18 +70,36 @@ func pegOf(c *engine.Context) *pegModel {
 		m.src = g
 		m.gen = peg.Decompile(p.GenFile)
 		m.facts = peg.NewFacts(g)
+		rg, problems := m.gen.AsGrammar()
+		if len(problems) == 0 && len(rg.Rules) > 0 {
+			m.run, m.runOK = rg, true
+		} else {
+			m.run, m.runProblems = g, problems
+		}
+		m.runFacts = peg.NewFacts(m.run)
 		return m
 	}).(*pegModel)
 }
 
 // ruleTVRules: TV-RULES.
-func ruleTVRules(c *engine.Context) *report.Rule {
+func ruleTVRules(c *engine.Context, identOnly bool) *report.Rule {
 	r := report.NewRule("TV-RULES", "every rule of the published grammar is implemented by the generated matcher (decompiled and compared rule by rule)", 40)
+	if identOnly {
+		r = report.NewRule("TV-IDENT", "the member-name rules of the published grammar (character classes, escape alternatives) are implemented by the generated matcher", 4)
+	}
 	m := pegOf(c)
 	p := c.P
 	if m.err != "" {
 		r.InfraFail("%s", m.err)
 		return r
+	}
+	var only map[string]bool
+	if identOnly {
+		only = identifierRules(c, m)
+		if len(only) == 0 {
+			r.InfraFail("anchor unresolved: grammar rules that construct member names")
+			return r
+		}
 	}
 	for _, e := range m.gen.Errors {
 		r.Undischarged("generated parser structure", p.FileOf(p.GenFile.Pos()), "%s", e)
@@ -80,6 +107,9 @@ func ruleTVRules(c *engine.Context) *report.Rule {
 	genFile := p.FileOf(p.GenFile.Pos())
 	seenGen := map[string]bool{}
 	for _, sr := range m.src.Rules {
+		if only != nil && !only[sr.Name] {
+			continue
+		}
 		r.Instances++
 		ns := peg.Normalize(sr.E)
 		construct := "grammar rule " + sr.Name
@@ -132,6 +162,9 @@ func ruleTVRules(c *engine.Context) *report.Rule {
 		}
 		r.Oblige(allOK)
 		r.Nontrivial++
+	}
+	if identOnly {
+		return r
 	}
 	// no extra rules in the generated parser; every called rule has a function
 	for name := range m.gen.Rules {
@@ -247,14 +280,20 @@ func ruleTVWF(c *engine.Context) *report.Rule {
 		r.InfraFail("%s", m.err)
 		return r
 	}
-	r.Instances = len(m.src.Rules)
-	errs := m.facts.WellFormed()
-	r.Obligations = len(m.src.Rules)
-	r.Discharged = len(m.src.Rules) - len(errs)
+	requireRunning(r, m)
+	r.Instances = len(m.run.Rules)
+	errs := m.runFacts.WellFormed()
+	if m.runOK {
+		// the published grammar must be well-formed too
+		errs = append(errs, m.facts.WellFormed()...)
+		errs = uniqSorted(errs)
+	}
+	r.Obligations = len(m.run.Rules)
+	r.Discharged = len(m.run.Rules) - len(errs)
 	if r.Discharged < 0 {
 		r.Discharged = 0
 	}
-	r.Sample("%d rules checked for left recursion and nullable repetition", len(m.src.Rules))
+	r.Sample("%d rules of the running (decompiled) grammar checked for left recursion and nullable repetition", len(m.run.Rules))
 	for _, e := range errs {
 		r.Violation("grammar well-formedness: "+e, m.pegPos, "%s: packrat matching may not terminate", e)
 	}
@@ -269,8 +308,9 @@ func ruleTVCatchAll(c *engine.Context) *report.Rule {
 		r.InfraFail("%s", m.err)
 		return r
 	}
+	requireRunning(r, m)
 	r.Instances = 1
-	start := m.src.Rules[0]
+	start := m.run.Rules[0]
 	ok := false
 	why := "the start rule is not a choice"
 	if ch, isC := peg.Normalize(start.E).(*peg.Choice); isC && len(ch.Alts) >= 2 {
@@ -288,7 +328,7 @@ func ruleTVCatchAll(c *engine.Context) *report.Rule {
 				if isStar {
 					_, isDot = st.E.(*peg.Dot)
 				}
-				endRule := m.src.ByName[end.Name]
+				endRule := m.run.ByName[end.Name]
 				endOK := false
 				if endRule != nil {
 					if nt, isNot := peg.Normalize(endRule.E).(*peg.Not); isNot {
@@ -490,9 +530,10 @@ func ruleWSpace(c *engine.Context) *report.Rule {
 		r.InfraFail("%s", m.err)
 		return r
 	}
+	requireRunning(r, m)
 	// the space rule: body is ' '*
 	spaceName := ""
-	for _, sr := range m.src.Rules {
+	for _, sr := range m.run.Rules {
 		if st, ok := peg.Normalize(sr.E).(*peg.Star); ok {
 			if ru, ok := singleRune(st.E); ok && ru == ' ' {
 				spaceName = sr.Name
@@ -518,7 +559,7 @@ func ruleWSpace(c *engine.Context) *report.Rule {
 			if x.Name == spaceName {
 				return true
 			}
-			if rr := m.src.ByName[x.Name]; rr != nil {
+			if rr := m.run.ByName[x.Name]; rr != nil {
 				return startsSp(peg.Normalize(rr.E), depth+1)
 			}
 		case *peg.Seq:
@@ -549,7 +590,7 @@ func ruleWSpace(c *engine.Context) *report.Rule {
 			if x.Name == spaceName {
 				return true
 			}
-			if rr := m.src.ByName[x.Name]; rr != nil {
+			if rr := m.run.ByName[x.Name]; rr != nil {
 				return endsSp(peg.Normalize(rr.E), depth+1)
 			}
 		case *peg.Seq:
@@ -637,7 +678,7 @@ func ruleWSpace(c *engine.Context) *report.Rule {
 			}
 		}
 	}
-	for _, sr := range m.src.Rules {
+	for _, sr := range m.run.Rules {
 		walk(sr.Name, peg.Normalize(sr.E), false, false)
 	}
 	for _, pol := range spacePolicy {
@@ -674,7 +715,7 @@ func ruleWSpace(c *engine.Context) *report.Rule {
 	}
 	// around a whole path: every rule of the shape `space X continued` — the path rules — starts with blanks and ends with blanks
 	paths := 0
-	for _, sr := range m.src.Rules {
+	for _, sr := range m.run.Rules {
 		seq, ok := peg.Normalize(sr.E).(*peg.Seq)
 		if !ok || len(seq.Items) < 3 {
 			continue
@@ -683,7 +724,7 @@ func ruleWSpace(c *engine.Context) *report.Rule {
 		if !isRef {
 			continue
 		}
-		lr := m.src.ByName[last.Name]
+		lr := m.run.ByName[last.Name]
 		if lr == nil || !strings.Contains(strings.ToLower(sr.Name), "path") {
 			continue
 		}
@@ -710,8 +751,9 @@ func ruleWCapture(c *engine.Context) *report.Rule {
 		r.InfraFail("%s", m.err)
 		return r
 	}
+	requireRunning(r, m)
 	spaceName := ""
-	for _, sr := range m.src.Rules {
+	for _, sr := range m.run.Rules {
 		if st, ok := peg.Normalize(sr.E).(*peg.Star); ok {
 			if ru, ok := singleRune(st.E); ok && ru == ' ' {
 				spaceName = sr.Name
@@ -729,7 +771,7 @@ func ruleWCapture(c *engine.Context) *report.Rule {
 				return false
 			}
 			seen[x.Name] = true
-			if rr := m.src.ByName[x.Name]; rr != nil {
+			if rr := m.run.ByName[x.Name]; rr != nil {
 				return hasSpace(rr.E, seen)
 			}
 		case *peg.Seq:
@@ -821,7 +863,7 @@ func ruleWCapture(c *engine.Context) *report.Rule {
 			walk(rule, x.E)
 		}
 	}
-	for _, sr := range m.src.Rules {
+	for _, sr := range m.run.Rules {
 		walk(sr.Name, sr.E)
 	}
 	return r
@@ -831,4 +873,111 @@ func nodeStr(n ast.Node) string {
 	var b bytes.Buffer
 	printer.Fprint(&b, token.NewFileSet(), n)
 	return b.String()
+}
+
+// identifierRules: rules whose actions build single member names, and the rules they reference.
+func identifierRules(c *engine.Context, m *pegModel) map[string]bool {
+	p := c.P
+	// the constructor: hand-written parser function that stores its string parameter into a node's string field used as lookup key
+	ctors := map[*ssa.Function]bool{}
+	for _, fn := range parseFuncs(c, true) {
+		for _, b := range fn.Blocks {
+			for _, ins := range b.Instrs {
+				st, ok := ins.(*ssa.Store)
+				if !ok {
+					continue
+				}
+				fa, ok := st.Addr.(*ssa.FieldAddr)
+				if !ok {
+					continue
+				}
+				pt, ok := fa.X.Type().Underlying().(*types.Pointer)
+				if !ok || !p.Roles.IsNodeType(pt.Elem()) {
+					continue
+				}
+				if _, isParam := st.Val.(*ssa.Parameter); isParam && isStringT(st.Val.Type()) {
+					if nt, ok := pt.Elem().(*types.Named); ok && nt != p.Roles.BasicNode {
+						ctors[fn] = true
+					}
+				}
+			}
+		}
+	}
+	blocks, _ := actionBlocksOf(c)
+	acts := map[int]bool{}
+	for k, bs := range blocks {
+		for _, b := range bs {
+			for _, ins := range b.Instrs {
+				if call, ok := ins.(*ssa.Call); ok && call.Call.StaticCallee() != nil && ctors[call.Call.StaticCallee()] {
+					acts[k] = true
+				}
+			}
+		}
+	}
+	out := map[string]bool{}
+	var hasAct func(e peg.Expr) bool
+	hasAct = func(e peg.Expr) bool {
+		found := false
+		walkExpr(e, func(x peg.Expr) {
+			if a, ok := x.(*peg.Action); ok && acts[a.Index] {
+				found = true
+			}
+		})
+		return found
+	}
+	var addRefs func(name string)
+	addRefs = func(name string) {
+		if out[name] {
+			return
+		}
+		out[name] = true
+		if rr := m.src.ByName[name]; rr != nil {
+			walkExpr(rr.E, func(x peg.Expr) {
+				if ref, ok := x.(*peg.Ref); ok {
+					addRefs(ref.Name)
+				}
+			})
+		}
+	}
+	for _, sr := range m.src.Rules {
+		if hasAct(sr.E) {
+			addRefs(sr.Name)
+		}
+	}
+	return out
+}
+
+func walkExpr(e peg.Expr, f func(peg.Expr)) {
+	f(e)
+	switch x := e.(type) {
+	case *peg.Seq:
+		for _, it := range x.Items {
+			walkExpr(it, f)
+		}
+	case *peg.Choice:
+		for _, a := range x.Alts {
+			walkExpr(a, f)
+		}
+	case *peg.Star:
+		walkExpr(x.E, f)
+	case *peg.Plus:
+		walkExpr(x.E, f)
+	case *peg.Opt:
+		walkExpr(x.E, f)
+	case *peg.Not:
+		walkExpr(x.E, f)
+	case *peg.And:
+		walkExpr(x.E, f)
+	case *peg.Capture:
+		walkExpr(x.E, f)
+	case *peg.Named:
+		walkExpr(x.E, f)
+	}
+}
+
+// requireRunning reports when the running grammar could not be reconstructed from the generated code.
+func requireRunning(r *report.Rule, m *pegModel) {
+	if !m.runOK {
+		r.Undischarged("running grammar not reconstructed", m.pegPos, "the grammar the generated parser runs could not be reconstructed (%s); the rule was evaluated on the published grammar instead, which is only meaningful if translation validation (TV-RULES) passes", strings.Join(m.runProblems, "; "))
+	}
 }
